@@ -329,9 +329,7 @@ class Engine:
         if k == 'pyif':
             c = self.cond(fr[1])
             return c if fr[2] else f_not(c)
-        if k == 'for':
-            return T
-        if k == 'switch':
+        if k in ('for', 'switch', 'try', 'except'):
             return T
         raise AssertionError(fr)
 
